@@ -77,10 +77,12 @@ def attribute(pid, res, rows, scenarios):
                 continue
         elif name == "NotStuck":
             continue
-        elif name not in a["inv"]:
+        elif name not in a["inv"] and not (pid == "C17" and name == "Missing_runret"):
             continue
         ev = rows[l - 1]
         sid = ev.get("scen")
+        if pid == "C17" and name == "Missing_runret" and not by_id.get(sid, {}).get("cfg", {}).get("expect_run_error"):
+            continue      # C17 speaks about Run's return only where Run cannot listen
         if (name, sid) in seen:
             continue
         seen.add((name, sid))
@@ -264,7 +266,7 @@ def check(run, pid, families, extra=None):
     mc = live if q else scen.design_check(run, DESIGN["thorough"], DESIGN_INV, workers=8)
     scenarios, stats = run_families(run, families, cap=1200 if q else None)
     rows, trace = scen.replay(run, scenarios, par=8)
-    res = scen.validate(run, trace)
+    res = scen.validate(run, trace, first=ATTR[pid]["inv"])
     viols = attribute(pid, res, rows, scenarios)
     nextra = 0
     if extra:
@@ -297,7 +299,7 @@ def replay(run, pid, path):
     n = 0
     for k in range(5):
         rows, trace = scen.replay(run, [dict(sc, id=1)], par=1)
-        res = scen.validate(run, trace)
+        res = scen.validate(run, trace, first=ATTR[pid]["inv"])
         viols = attribute(pid, res, rows, [dict(sc, id=1)])
         if viols:
             n += 1
